@@ -7,6 +7,8 @@ import (
 
 type Checker interface {
 	Env() *GlobalEnvironment
+	// Whether the checker keeps its state between inputs (REPL): classes can get subclasses later
+	IsIncremental() bool
 	IsSubtype(a, b Type) bool
 	IsNilable(typ Type) bool
 	IsNotNilable(typ Type) bool
